@@ -35,6 +35,7 @@ type AtCall struct {
 	K      int // 0 = all
 	Clause Clause
 	Assume bool
+	Cover  bool // the call must be reachable with the condition true (a satisfiable query is expected)
 }
 
 type Contract struct {
@@ -480,7 +481,7 @@ func (db *SpecDB) LoadFile(file string, pkgPath string) error {
 			if err != nil {
 				return err
 			}
-			cur.AtCalls = append(cur.AtCalls, AtCall{Callee: cal, K: k, Clause: c, Assume: fields[3] == "assume"})
+			cur.AtCalls = append(cur.AtCalls, AtCall{Callee: cal, K: k, Clause: c, Assume: fields[3] == "assume", Cover: fields[3] == "cover"})
 		case "safety":
 			if cur == nil {
 				return fmt.Errorf("%s:%d: safety outside a contract", file, ln)
